@@ -206,6 +206,38 @@ def run(R, tier, seed, driver_ok):
                     tol_eq = 1e-6 if name in ('NCA', 'MLKR', 'LMNN', 'LFDA', 'MMC', 'MMC_Supervised', 'LSML', 'LSML_Supervised') else 1e-9
                     if np.abs(Mv - Mref).max() > tol_eq * max(np.abs(Mref).max(), 1e-300):
                         R.violation(f'{name}.fit/equiv-{vn}-differs', f'{name}.fit({vn} input) learns a different metric than the float64 C array', {'est': name, 'variant': vn})
+        # ---- narrow and unsigned integer dtypes holding the same (small, non-negative) numbers: arithmetic on the points
+        #      must not be done in the integer dtype (differences wrap around, squares overflow)
+        if name not in ('SCML_Supervised', 'LMNN'):          # (tie-sensitive neighbour searches on a coarse grid)
+            span = max(float((X - X.min(0)).max()), 1e-9)
+            Xs = np.round((X - X.min(0)) * (100.0 / span))
+            _, fa_s = zoo.fit_args(name, Xs, y, np.random.RandomState(seed), indices=True)
+            base_s = np.ascontiguousarray(fa_s[0], dtype=float)
+            with warnings.catch_warnings():
+                warnings.simplefilter('ignore')
+                try:
+                    ref_est = zoo.CLASSES[name](**p3).fit(base_s, *fa_s[1:])
+                    Mref_s = ref_est.get_mahalanobis_matrix()
+                except Exception:
+                    Mref_s = None
+                if Mref_s is not None and np.all(np.isfinite(Mref_s)):
+                    for dt in (np.uint8, np.uint16, np.int8, np.int16):
+                        vn = np.dtype(dt).name
+                        R.case(('c06', name, 'fit-equiv', vn), True, branch='equivalent-arraylike:narrow-int')
+                        try:
+                            est_v = zoo.CLASSES[name](**p3).fit(base_s.astype(dt), *fa_s[1:])
+                            Mv = est_v.get_mahalanobis_matrix()
+                        except Exception as e:
+                            R.violation(f'{name}.fit/equiv-{vn}-{type(e).__name__}', f'{name}.fit({vn} input) raised {type(e).__name__}: {str(e)[:100]}', {'est': name, 'variant': vn, 'data': base_s})
+                            continue
+                        tol_eq = 1e-6 if name in ('NCA', 'MLKR', 'LFDA', 'MMC', 'MMC_Supervised', 'LSML', 'LSML_Supervised') else 1e-9
+                        if not np.all(np.isfinite(Mv)) or np.abs(Mv - Mref_s).max() > tol_eq * max(np.abs(Mref_s).max(), 1e-300):
+                            R.violation(f'{name}.fit/equiv-{vn}-differs', f'{name}.fit({vn} input) learns a different metric than the same numbers as float64', {'est': name, 'variant': vn, 'data': base_s})
+                        # queries in the narrow dtype on the float-fitted model
+                        q = base_s[:4] if base_s.ndim == 2 else base_s[:4, 0]
+                        tq, tqv = ref_est.transform(q), ref_est.transform(q.astype(dt))
+                        if np.abs(tq - tqv).max() > 1e-9 * max(np.abs(tq).max(), 1e-300):
+                            R.violation(f'{name}.transform/equiv-{vn}-differs', f'{name}.transform({vn} input) differs from the same numbers as float64', {'est': name, 'variant': vn})
         # ---- with a preprocessor: wrong-shaped index arrays are rejected too
         estp, Xp, yp, argsp = zoo.fitted(name, rng, d=d, preprocessor='array')
         for tag, obj, m in [('idx-ndim0', np.int64(0), 'transform'),
